@@ -34,6 +34,15 @@ func unsupported(format string, a ...interface{}) {
 	panic(engineError{msg: fmt.Sprintf(format, a...)})
 }
 
+// captureRec: a named capture whose value was introduced by existential
+// decomposition; on witness paths its model value is compared with Go's regexp.
+type captureRec struct {
+	re      *Regex
+	subject *Term
+	name    string
+	capture *Term
+}
+
 type decision struct {
 	alt  int
 	n    int
@@ -86,6 +95,7 @@ type Machine struct {
 	Concrete map[string]ModelVal
 	Trace    []string
 
+	captureLog []captureRec // regexp captures decomposed on this path (validated on witnesses)
 	harnessPkg *ssa.Package // package of the harness being run
 	curPkg     *ssa.Package // package of the function currently executing (for vfStub_* lookups)
 
@@ -127,6 +137,7 @@ type HarnessResult struct {
 	Functions   map[string]bool
 	UnwindChecks int
 	Witnesses   []map[string]ModelVal // models of sampled complete paths
+	CapturesValidated int
 	RangeSites  map[string]int        // range-over-map statements executed under permutation mode with >= 2 entries
 }
 
@@ -247,6 +258,7 @@ func (m *Machine) resetPath() {
 	m.reached = nil
 	m.pathTags = nil
 	m.uncertain = false
+	m.captureLog = nil
 	m.env = map[string]interface{}{}
 }
 
@@ -302,9 +314,34 @@ func (m *Machine) sampleWitness() {
 	if n > 3 && n%7 != 0 {
 		return
 	}
-	res, model := m.Solver.CheckPCModel(m.pc, nil, m.nondet)
+	vals := append([]*Term(nil), m.nondet...)
+	for _, c := range m.captureLog {
+		vals = append(vals, c.subject, c.capture)
+	}
+	res, model := m.Solver.CheckPCModel(m.pc, nil, vals)
 	if res != Sat {
 		return
+	}
+	// the capture decomposition must agree with Go's regexp on this model
+	for _, c := range m.captureLog {
+		subj, got := model[c.subject.Key()].S, model[c.capture.Key()].S
+		if c.subject.IsConst() {
+			subj = c.subject.S
+		}
+		if c.capture.IsConst() {
+			got = c.capture.S
+		}
+		mt := c.re.Go.FindStringSubmatch(subj)
+		want := ""
+		for i, n := range c.re.Go.SubexpNames() {
+			if n == c.name && mt != nil {
+				want = mt[i]
+			}
+		}
+		m.Res.CapturesValidated++
+		if mt == nil || want != got {
+			m.inconclusive("CAPTURE-MODEL-MISMATCH: group %q of %q on subject %q: Go gives %q, the decomposition %q", c.name, truncate(c.re.Pattern, 60), subj, want, got)
+		}
 	}
 	w := map[string]ModelVal{}
 	for _, nv := range m.nondet {
